@@ -73,7 +73,9 @@ def facts(res, harness):
 
 
 FIELD_KINDS = ["func-addrspace", "func-sig", "global-addrspace", "global-contenttype", "alloca-addrspace", "alias-aliasee", "param-type", "invoke-invokee", "call-callee", "callbr-callee",
-               "add-operands", "icmp-operands", "select-operands", "phi-incoming", "extractvalue-x", "gep-src", "cast-from"]
+               "add-operands", "icmp-operands", "select-operands", "phi-incoming", "extractvalue-x", "gep-src", "cast-from",
+               # the type object handed out by Type() is already part of ANOTHER entity (a parameter type): edits + observations must not change that entity
+               "func-type-shared", "global-type-shared", "alloca-type-shared", "alias-type-shared"]
 
 
 def gen(tier, rng, harness=None):
